@@ -926,12 +926,22 @@ def check_tables(chk, rng, workdir, dirsize):
             seq_keys = keys + (["p.tmp", "r/s.tmp", "q~"] if rng.random() < 0.3 else [])
             base_cols = ["v", "s"] if with_str else ["v"]
             ops, recs = [], []
+            pending, force_mod_key = None, None
             t = 10
             serial = 0
             for i in range(rng.randint(2, 9 if chk.tier == "quick" else 18)):
                 t += 2
                 key = rng.choice(seq_keys)
                 r = rng.random()
+                # scripted follow-ups: get -> local modification of the fetched table -> get of the same key again
+                if pending is not None:
+                    kind_, key_ = pending
+                    pending = None
+                    if kind_ == "modify" and key_ in fetched:
+                        r = 0.80
+                        force_mod_key = key_
+                    elif kind_ == "get":
+                        r, key = 0.5, key_
                 res = None
                 fail = None
                 try:
@@ -971,6 +981,8 @@ def check_tables(chk, rng, workdir, dirsize):
                                 rows = [(-1, -1)]
                             res = ["val"] + [[a, b] for a, b in rows]
                             fetched.setdefault(key, []).append(got)
+                            if rng.random() < 0.4:
+                                pending = ("modify", key)
                             if key not in d:
                                 fail = "never-set table %s reads as a table" % key
                             elif shape != (base_cols, [None]):
@@ -982,7 +994,10 @@ def check_tables(chk, rng, workdir, dirsize):
                     elif r < 0.92 and fetched:
                         # the caller changes a table it fetched earlier, in place, and does NOT store it back
                         import numpy as np
-                        mk = rng.choice(sorted(fetched))
+                        mk = force_mod_key if force_mod_key in fetched else rng.choice(sorted(fetched))
+                        force_mod_key = None
+                        if rng.random() < 0.7:
+                            pending = ("get", mk)
                         tb = rng.choice(fetched[mk])
                         how = rng.choice(["add-column", "set-index", "insert-row", "overwrite-column"])
                         try:
